@@ -251,7 +251,7 @@ def run(repo: Repo) -> Result:
             and isinstance(n.test, ast.Compare)
             and len(n.test.ops) == 1
             and isinstance(n.test.ops[0], ast.NotEq)
-            and any(isinstance(side, ast.Name) and side.id in popped for side in (n.test.left, n.test.comparators[0]))
+            and any((isinstance(side, ast.Name) and side.id in popped) or (isinstance(side, ast.Attribute) and side.attr == "name" and isinstance(side.value, ast.Name) and side.value.id in popped) for side in (n.test.left, n.test.comparators[0]))
             and any(isinstance(side, ast.Subscript) and isinstance(side.slice, ast.Slice) and text(side.slice) == "3:" for side in (n.test.left, n.test.comparators[0]))
         ]
         if not mism or not any(reports_unclosed(m_, p_) for m_ in mism for p_ in popped):
@@ -259,11 +259,35 @@ def run(repo: Repo) -> Result:
     vit = repo.own_method(TA, "_valid_inner_tag")
     rets = [s for s in walk_no_nested(vit.node) if isinstance(s, ast.Return)]
     params = [p for p in vit.params() if p != "self"]
-    if len(rets) != 1 or len(params) != 2 or text(rets[0].value) != f"any((tag_name in {params[1]} for tag_name in {params[0]}))":
-        res.add("C21-STACK", vit.qual, "membership", "_valid_inner_tag must be `any(tag_name in block_stack for tag_name in tag_names)`", vit.file, vit.line)
-    bsi = repo.own_method("liquid.analyze_tags._BlockStackItem", "__eq__")
-    if "== self.name" not in text(bsi.node):
-        res.add("C21-STACK", bsi.qual, "eq-by-name", "_BlockStackItem must compare equal to its tag name (the membership test relies on it)", bsi.file, bsi.line)
+    # `any(t in <open blocks> for t in <tag names>)` where <open blocks> is the stack parameter
+    # itself (then its items must compare equal to their names) or the names of ALL its items
+    # computed here, from the stack as it is now ({b.name for b in block_stack})
+    relies_on_eq = False
+    ok_m = False
+    if len(rets) == 1 and len(params) == 2:
+        v = rets[0].value
+        loc_m = {st.targets[0].id: st.value for st in walk_no_nested(vit.node) if isinstance(st, ast.Assign) and len(st.targets) == 1 and isinstance(st.targets[0], ast.Name)}
+        if isinstance(v, ast.Call) and is_name(v.func, "any") and len(v.args) == 1 and isinstance(v.args[0], (ast.GeneratorExp, ast.ListComp)) and len(v.args[0].generators) == 1:
+            g = v.args[0].generators[0]
+            e = v.args[0].elt
+            if is_name(g.iter, params[0]) and isinstance(g.target, ast.Name) and not g.ifs and isinstance(e, ast.Compare) and len(e.ops) == 1 and isinstance(e.ops[0], ast.In) and is_name(e.left, g.target.id):
+                container = e.comparators[0]
+                if isinstance(container, ast.Name) and container.id in loc_m:
+                    container = loc_m[container.id]
+                if is_name(container, params[1]):
+                    ok_m, relies_on_eq = True, True
+                elif isinstance(container, (ast.SetComp, ast.ListComp, ast.GeneratorExp)) and len(container.generators) == 1 and is_name(container.generators[0].iter, params[1]) and not container.generators[0].ifs and isinstance(container.generators[0].target, ast.Name) and text(container.elt) == f"{container.generators[0].target.id}.name":
+                    ok_m = True
+    if not ok_m:
+        res.add("C21-STACK", vit.qual, "membership", "_valid_inner_tag must be `any(tag_name in block_stack for tag_name in tag_names)` (or the same test against the names of all blocks on the stack)", vit.file, vit.line)
+    # a mismatch test on the popped object itself relies on name equality too
+    if "mism" in dir() and any(any(isinstance(side, ast.Name) and side.id in popped for side in (m_.test.left, m_.test.comparators[0])) for m_ in mism):
+        relies_on_eq = True
+    if relies_on_eq:
+        bsi_cls = repo.cls("liquid.analyze_tags._BlockStackItem")
+        bsi = bsi_cls.methods.get("__eq__")
+        if bsi is None or "== self.name" not in text(bsi.node):
+            res.add("C21-STACK", bsi_cls.qual, "eq-by-name", "_BlockStackItem must compare equal to its tag name (the membership / mismatch test relies on it)", bsi_cls.file, bsi_cls.node.lineno)
 
     # ---- inner tag map -----------------------------------------------------------
     mp_expr = repo.const("liquid.analyze_tags.DEFAULT_INNER_TAG_MAP")
